@@ -5,6 +5,7 @@ import (
 	"go/token"
 	"go/types"
 	"os"
+	"path/filepath"
 	"regexp"
 	"sort"
 	"strings"
@@ -1848,7 +1849,7 @@ func hrNoSessionSentinel(w *World, r *Report, rule string) {
 
 // hrRevertUnmanageFlags: which update unmanages stale endpoints at once.
 func hrRevertUnmanageFlags(w *World, r *Report, rule string) {
-	for name, want := range map[string]bool{"RevertToLastLoaded": true, "RevertToDiagnosisFree": true, "ReloadFromFile": false} {
+	for name, want := range map[string]bool{"RevertToLastLoaded": true, "RevertToDiagnosisFree": true, "ReloadFromFile": false, "UpdateRawData": false} {
 		f := w.Fn(pkgConfig, "TxnPoliciesAccessor."+name)
 		if f == nil {
 			r.Undec(rule, name, token.NoPos, "function not found")
@@ -3624,4 +3625,360 @@ func hrFilterExtendDedupAgainstItself(w *World, r *Report, rule string) {
 		}
 	})
 	r.Check(ok && n >= 4, rule, "Filter.Extend/duplicate-test-against-the-extended-filter", f.Pos(), "each of the %d membership tests looks in the filter being extended, not in the one it is extended from (%v)", n, bad)
+}
+
+// ---------------------------------------------------------------------------
+// part 10: tenth wave, second half
+
+// hrManageSendsEverything: what the engine computed is what the proxy is told.
+func hrManageSendsEverything(w *World, r *Report, rule string) {
+	if f := w.Fn(pkgConfig, "ManageHAProxyEndpoints"); f == nil {
+		r.Undec(rule, "ManageHAProxyEndpoints", token.NoPos, "function not found")
+	} else {
+		cs := CallsIn(f, false, "config.updateHAProxyEndpoints")
+		r.Check(len(cs) == 1 && alwaysRuns(cs[0]), rule, "ManageHAProxyEndpoints/always-updates-the-proxy", f.Pos(), "updateHAProxyEndpoints runs for every request (a configuration with only global plugins has no endpoint list but sets manage-all)")
+	}
+	if f := w.Fn(pkgConfig, "updateHAProxyEndpoints"); f == nil {
+		r.Undec(rule, "updateHAProxyEndpoints", token.NoPos, "function not found")
+	} else {
+		n, ok := 0, true
+		var extra []string
+		for _, c := range CallsIn(f, false, "config.operateEndpoint") {
+			a := c.Common().Args
+			if len(a) < 3 || !strings.HasSuffix(Path(a[2]), "haproxyManagedEndpointURL") && !strings.Contains(Path(a[2]), "managed_endpoint") {
+				continue
+			}
+			n++
+			for _, cd := range CondsOf(c.Block()) {
+				p := Path(cd.V)
+				if strings.HasSuffix(p, ".ManageAll") && !cd.Pol {
+					continue
+				}
+				if strings.Contains(p, "phi[") && strings.Contains(p, "builtin.len(") {
+					continue // the loop over the endpoints
+				}
+				ok = false
+				extra = append(extra, trunc(condsString([]Cond{cd}), 80))
+			}
+		}
+		r.Check(ok && n == 1, rule, "updateHAProxyEndpoints/every-endpoint-is-put", f.Pos(), "every managed endpoint is PUT to the proxy on every update, unless manage-all replaces them (further conditions: %v)", extra)
+	}
+	if f := w.Fn(pkgConfig, "EndpointsToUnmanage"); f == nil {
+		r.Undec(rule, "EndpointsToUnmanage", token.NoPos, "function not found")
+	} else {
+		ok := true
+		for _, alt := range ReturnAlts(f, 0) {
+			for _, cd := range alt.Conds {
+				if p := Path(cd.V); strings.Contains(p, "builtin.len(param:current)") && !strings.Contains(p, "phi[") {
+					ok = false
+				}
+			}
+		}
+		r.Check(ok, rule, "EndpointsToUnmanage/difference-for-every-current-list", f.Pos(), "no return depends on the current list being empty (when nothing stays managed, everything previously managed is to be unmanaged)")
+	}
+}
+
+// hrDelayedUnmanageWaitsRetention: the proxy keeps forwarding an endpoint as long as a superseded version can still be pinned.
+func hrDelayedUnmanageWaitsRetention(w *World, r *Report, rule string) {
+	want := w.constOf(pkgConfig, "staleVersionTTL")
+	for _, name := range []string{"ScheduleUnmanageHAProxyEndpoints", "scheduleUnmanageHAProxyGlobal"} {
+		f := w.Fn(pkgConfig, name)
+		if f == nil {
+			r.Undec(rule, name, token.NoPos, "function not found")
+			continue
+		}
+		n, ok := 0, want != nil
+		for _, af := range Anons(f) {
+			for _, c := range CallsIn(af, false, "Clock).Sleep", "Clock).After") {
+				n++
+				a := margs(c)
+				k, isK := peel(a[0]).(*ssa.Const)
+				if !isK || k.Value == nil || want == nil || !constant.Compare(k.Value, token.EQL, want) {
+					ok = false
+				}
+			}
+		}
+		r.Check(ok && n == 1, rule, name+"/waits-the-retention-period", f.Pos(), "the delayed unmanage sleeps staleVersionTTL, the time a superseded policies version stays pinned")
+	}
+}
+
+// hrFoldOrder: the actions of a chain are folded left to right: accumulated.Prioritize(next).
+func hrFoldOrder(w *World, r *Report, rule string) {
+	for _, e := range []struct{ fn, method, producer string }{
+		{"runOnRequest", "ReqLunarAction).ReqPrioritize", "runner.remedyOnRequest"},
+		{"runOnResponse", "RespLunarAction).RespPrioritize", "runner.remedyOnResponse"},
+	} {
+		f := w.Fn(pkgRunner, e.fn)
+		if f == nil {
+			r.Undec(rule, e.fn, token.NoPos, "function not found")
+			continue
+		}
+		cs := CallsIn(f, false, e.method)
+		ok := len(cs) == 1
+		if ok {
+			c := cs[0]
+			recv := c.Common().Value
+			arg := c.Common().Args[0]
+			_, recvIsPhi := peel(recv).(*ssa.Phi)
+			argFromRemedy := Derives(arg, func(x ssa.Value) bool { return isCallTo0(x, e.producer) })
+			recvFromRemedy := false
+			if !recvIsPhi {
+				recvFromRemedy = Derives(recv, func(x ssa.Value) bool { return isCallTo0(x, e.producer) })
+			}
+			ok = recvIsPhi && argFromRemedy && !recvFromRemedy
+		}
+		r.Check(ok, rule, e.fn+"/accumulated-prioritises-next", f.Pos(), "the fold calls accumulated.Prioritize(action of this remedy): the earlier remedy of the chain is the receiver")
+	}
+}
+
+// hrCfgURLVariable (haproxy.cfg): the URL the engine sees keeps the path as sent.
+func hrCfgURLVariable(w *World, r *Report, rule string) {
+	cfg, err := loadHAProxyCfg(w.Repo)
+	if err != nil {
+		r.Undec(rule, "haproxy.cfg", token.NoPos, "cannot read %s: %v", haproxyCfgPath, err)
+		return
+	}
+	fe := cfg.section("frontend", "http-in")
+	if fe == nil {
+		r.Undec(rule, "haproxy.cfg/frontend/http-in", token.NoPos, "frontend http-in not found")
+		return
+	}
+	ds := fe.find("http-request", "set-var(txn.url)")
+	ok := len(ds) == 1 && len(ds[0].Words) == 3
+	expr := ""
+	if ok {
+		expr = ds[0].Words[2]
+		i := strings.Index(expr, "concat(")
+		ok = i >= 0 && strings.Contains(expr[i:], "txn.path") && !strings.Contains(expr[i:], "lower") && !strings.Contains(expr[i:], "upper")
+	}
+	ps := fe.find("http-request", "set-var(txn.path)")
+	ok = ok && len(ps) == 1 && len(ps[0].Words) == 3 && ps[0].Words[2] == "path"
+	cfgCheck(r, ok, rule, "haproxy.cfg/http-in/txn.url-keeps-the-path-as-sent", cfg, fe.Line, "txn.url = host,concat(,txn.path) with no case conversion after the path is appended (found %q): two URLs that differ in case are two keys", expr)
+}
+
+// hrCfgSPOEBackendName: the statistics row the health predicate reads is the backend the SPOE agent uses.
+func hrCfgSPOEBackendName(w *World, r *Report, rule string) {
+	want := w.constOf(pkgFailsafe, "spoeBackendProxyName")
+	cfg, err := loadHAProxyCfg(w.Repo)
+	if err != nil || want == nil {
+		r.Undec(rule, "haproxy.cfg", token.NoPos, "cannot read %s or constant spoeBackendProxyName: %v", haproxyCfgPath, err)
+		return
+	}
+	name := constant.StringVal(want)
+	cfgCheck(r, cfg.section("backend", name) != nil, rule, "haproxy.cfg/backend-of-the-spoe-agent", cfg, 0, "haproxy.cfg has a backend named %q, the proxy name areSPOEConnectionsHealthy looks for in the statistics", name)
+	raw, err := os.ReadFile(filepath.Join(w.Repo, "proxy/rootfs/etc/haproxy/spoe/lunar.conf"))
+	if err != nil {
+		r.Undec(rule, "spoe/lunar.conf", token.NoPos, "cannot read: %v", err)
+		return
+	}
+	n, ok := 0, true
+	for _, line := range strings.Split(string(raw), "\n") {
+		ws := cfgWords(line)
+		if len(ws) == 2 && ws[0] == "use-backend" {
+			n++
+			if ws[1] != name {
+				ok = false
+			}
+		}
+	}
+	r.Check(ok && n >= 1, rule, "spoe/lunar.conf/use-backend-is-the-watched-backend", token.NoPos, "the SPOE agent's use-backend is %q (%d directives)", name, n)
+}
+
+// hrFreshDecodeTarget: every access-log line is decoded into a variable of its own.
+func hrFreshDecodeTarget(w *World, r *Report, rule string) {
+	f := w.Fn(pkgDisc, "decodeMessage")
+	if f == nil {
+		r.Undec(rule, "decodeMessage", token.NoPos, "function not found")
+		return
+	}
+	n, ok := 0, true
+	Instrs(f, func(in ssa.Instruction) {
+		c, isC := in.(ssa.CallInstruction)
+		if !isC || !strings.HasSuffix(calleeID(c), "json.Unmarshal") && !strings.HasSuffix(calleeID(c), ".Unmarshal") {
+			return
+		}
+		a := c.Common().Args
+		if len(a) != 2 {
+			return
+		}
+		n++
+		t := a[1]
+		if mi, isMI := t.(*ssa.MakeInterface); isMI {
+			t = mi.X
+		}
+		if al, isA := t.(*ssa.Alloc); !isA || al.Parent() == nil {
+			ok = false
+		}
+	})
+	r.Check(ok && n == 1, rule, "decodeMessage/decodes-into-a-fresh-variable", f.Pos(), "json.Unmarshal fills a variable local to the call (a key missing in one line must not inherit the previous line's value)")
+}
+
+// hrTrimBothEnds: the URL tree trims the same characters from both ends of every URL.
+func hrTrimBothEnds(w *World, r *Report, rule string) {
+	f := w.Fn(pkgURLTree, "trimURL")
+	if f == nil {
+		r.Undec(rule, "trimURL", token.NoPos, "function not found")
+		return
+	}
+	ok, n := true, 0
+	for _, alt := range ReturnAlts(f, 0) {
+		n++
+		c, isC := peel(alt.Val).(*ssa.Call)
+		if !isC || !isCallTo(c, "strings.Trim") || Path(c.Call.Args[0]) != "param:url" {
+			ok = false
+		}
+	}
+	r.Check(ok && n == 1, rule, "trimURL/both-ends-one-cut-set", f.Pos(), "trimURL is strings.Trim(url, cutset): every leading and trailing character of the cut-set goes, on both sides alike")
+}
+
+// hrPersistedKeysAllRead: every persisted endpoint is read back.
+func hrPersistedKeysAllRead(w *World, r *Report, rule string) {
+	f := w.Fn(pkgSDisc, "ConvertEndpointsFromPersisted")
+	if f == nil {
+		r.Undec(rule, "ConvertEndpointsFromPersisted", token.NoPos, "function not found")
+		return
+	}
+	n, ok := 0, true
+	var extra []string
+	Instrs(f, func(in ssa.Instruction) {
+		mu, isMU := in.(*ssa.MapUpdate)
+		if !isMU || !strings.Contains(mu.Map.Type().String(), "EndpointAgg") {
+			return
+		}
+		n++
+		for _, cd := range CondsOf(mu.Block()) {
+			p := Path(cd.V)
+			if strings.HasPrefix(p, "next(range(") {
+				continue
+			}
+			ok = false
+			extra = append(extra, trunc(p, 60))
+		}
+	})
+	r.Check(ok && n == 1, rule, "ConvertEndpointsFromPersisted/every-key-restored", f.Pos(), "each persisted endpoint is stored in the result, under no condition (%v)", extra)
+}
+
+// hrQueryParamKey: the key of a query-parameter exclusion is what follows the query_param prefix.
+func hrQueryParamKey(w *World, r *Report, rule string) {
+	f := w.Fn("lunar/engine/streams/processors/har-collector", "extractQueryParamKeyFromJSONPath")
+	if f == nil {
+		r.Undec(rule, "extractQueryParamKeyFromJSONPath", token.NoPos, "function not found")
+		return
+	}
+	pre := ""
+	ok := true
+	for _, c := range CallsIn(f, false, "strings.HasPrefix", "strings.TrimPrefix", "strings.CutPrefix") {
+		s, isS := constString(c.Common().Args[1])
+		if !isS || Path(c.Common().Args[0]) != "param:jsonPath" {
+			ok = false
+			continue
+		}
+		if pre != "" && pre != s {
+			ok = false
+		}
+		pre = s
+	}
+	ok = ok && strings.HasSuffix(pre, "query_param.") && len(CallsIn(f, false, "strings.LastIndex", "strings.Split", "strings.Index")) == 0
+	r.Check(ok, rule, "extractQueryParamKeyFromJSONPath/key-after-the-query-param-prefix", f.Pos(), "the key is the exclusion with the prefix %q removed, and only exclusions that start with it yield a key (an exclusion for a body path never names a query parameter)", pre)
+}
+
+// hrHeaderExclusionLists: request headers are checked against the request list, response headers against the response list.
+func hrHeaderExclusionLists(w *World, r *Report, rule string) {
+	for fn, fld := range map[string]string{"ShouldObfuscateRequestHeader": "RequestHeaders", "ShouldObfuscateResponseHeader": "ResponseHeaders"} {
+		f := w.Fn(pkgConfig, fn)
+		if f == nil {
+			r.Undec(rule, fn, token.NoPos, "function not found")
+			continue
+		}
+		fields := map[string]bool{}
+		for _, af := range Anons(f) {
+			Instrs(af, func(in ssa.Instruction) {
+				switch x := in.(type) {
+				case *ssa.FieldAddr:
+					if n := fieldName(x.X.Type(), x.Field); strings.HasSuffix(n, "Headers") {
+						fields[n] = true
+					}
+				case *ssa.Field:
+					if n := fieldName(x.X.Type(), x.Field); strings.HasSuffix(n, "Headers") {
+						fields[n] = true
+					}
+				}
+			})
+		}
+		r.Check(len(fields) == 1 && fields[fld], rule, fn+"/its-own-exclusion-list", f.Pos(), "%s reads Exclusions.%s only (found %v)", fn, fld, keysOf(fields))
+	}
+}
+
+// hrDestroyDoesNotRecreate: ending a transaction's context leaves the flow context (and its retry counters) alone.
+func hrDestroyDoesNotRecreate(w *World, r *Report, rule string) {
+	f := w.Fn(pkgLctx, "ContextManager.DestroyTransactionalContext")
+	if f == nil {
+		r.Undec(rule, "DestroyTransactionalContext", token.NoPos, "function not found")
+		return
+	}
+	n := len(CallsIn(f, true, "ContextManager).WithFlowContext", "ContextManager).WithGlobalContext", "LunarAdminContextI).SetFlowContext", "LunarAdminContextI).SetGlobalContext"))
+	r.Check(n == 0, rule, "DestroyTransactionalContext/flow-context-survives", f.Pos(), "destroying the transactional context does not re-create the flow context (%d re-creating calls)", n)
+}
+
+// hrDeepCopyAlwaysCopies: a deep copy never hands back its argument.
+func hrDeepCopyAlwaysCopies(w *World, r *Report, rule string) {
+	f := w.Fn("lunar/engine/utils", "DeepCopyHeaders")
+	if f == nil {
+		r.Undec(rule, "DeepCopyHeaders", token.NoPos, "function not found")
+		return
+	}
+	ok, n := true, 0
+	for _, alt := range ReturnAlts(f, 0) {
+		n++
+		if _, isMk := peel(alt.Val).(*ssa.MakeMap); !isMk {
+			ok = false
+		}
+	}
+	r.Check(ok && n >= 1, rule, "DeepCopyHeaders/always-a-new-map", f.Pos(), "every return is a map made in the function (the background diagnosis worker keeps the copy while the transaction path goes on writing the original)")
+}
+
+// hrGlobalRegistryUnderItsLock: a package-level registry is read and written under its package-level lock.
+func hrGlobalRegistryUnderItsLock(w *World, r *Report, la *LockAn, rule string) {
+	f := w.Fn(pkgLctx, "GetExpireWatcher")
+	if f == nil {
+		r.Undec(rule, "GetExpireWatcher", token.NoPos, "function not found")
+		return
+	}
+	n, ok := 0, true
+	Instrs(f, func(in ssa.Instruction) {
+		var m ssa.Value
+		switch x := in.(type) {
+		case *ssa.Lookup:
+			m = x.X
+		case *ssa.MapUpdate:
+			m = x.Map
+		default:
+			return
+		}
+		if !strings.HasSuffix(Path(m), "ewInstances") {
+			return
+		}
+		n++
+		held := false
+		for k := range la.HeldAt(in) {
+			if strings.HasSuffix(k, "ewGetterLock") {
+				held = true
+			}
+		}
+		if !held {
+			ok = false
+		}
+	})
+	r.Check(ok && n >= 2, rule, "GetExpireWatcher/registry-accessed-under-ewGetterLock", f.Pos(), "every read and write of ewInstances (%d) holds ewGetterLock (the first transactions of two kinds register concurrently)", n)
+}
+
+// hrParamSegmentNonEmpty: an empty segment is not a value of a path parameter for the proxy (or not for the tree).
+func hrParamSegmentNonEmpty(w *World, r *Report, rule string) {
+	repl := ""
+	if c := w.constOf(pkgConfig, "RegexToReplacePathParameters"); c != nil {
+		repl = constant.StringVal(c)
+	}
+	re, err := regexp.Compile("^" + repl + "$")
+	needsChar := err == nil && repl != "" && !re.MatchString("/") && !re.MatchString("") && re.MatchString("/x")
+	r.Check(needsChar, rule, "RegexToReplacePathParameters/needs-a-character", token.NoPos, "a path parameter is registered as %q: one segment with at least one character (the URL tree itself follows a parameter node for any segment, so this is the only guard against users//posts being served as users/{id}/posts)", repl)
 }
